@@ -812,6 +812,7 @@ func c13NMCases(c *Ctx, n int) {
 
 func runC13(c *Ctx) {
 	c13FindingF23(c)
+	c13EndToEnd(c)
 	// the streams whose cases cost most to evaluate come first, so that their shards start in the
 	// first wave of the parallel evaluation
 	c13ConvCases(c, c.Budget(260, 10000))
